@@ -76,7 +76,8 @@ inductive Err where
   | assertion       -- Result: #models ≠ evaluations.shape[1]
   | notFound        -- load from a target that holds nothing
   | badFile         -- load with the wrong file type / partially written file
-  | unspecified     -- the model makes no claim (merged / partially written file)
+  | nameExists      -- h5py: a link of that name is already in the (open, non-empty) file
+  | unspecified     -- the model makes no claim (a handle that holds a file of the other type)
   deriving DecidableEq, Repr
 
 def Atom.isNum : Atom → Bool
@@ -257,6 +258,142 @@ def storable (c : Codec) : Val → Bool
   | .dcons _ v r => (if v.isDict then storable c v else storableLeaf c v) && storable c r
   | _ => false
 
+/-! ### the writer as coded: type dispatch through the generated leaves
+
+`Rsa.Gen.C16.writeDispatch` is the if / elif chain of `_write_to_group` in source order over the
+flags "`isinstance(value, T)` holds"; `listDispatch` is the try / except of `_write_list`.
+`encodeC` follows them; `Rsa.Props.C16.encodeC_eq_encode` shows it is `encode` (so a reordered
+chain, a dropped branch or a narrower `except` breaks a proof). -/
+
+/-- name of the marker entry of a list group (see "Python lists" below) -/
+def listKey : String := "rsatoolbox_list"
+
+inductive PyType where
+  | str | ndarray | list | tuple | dict | none | scalar
+  deriving DecidableEq, Repr
+
+/-- the Python type a value has when `_write_to_group` meets it -/
+def pyTypeOf : Val → PyType
+  | .none => .none
+  | .str _ => .str
+  | .tens .nd _ _ => .ndarray
+  | .tens .list _ _ => .list
+  | .tens .tuple _ _ => .tuple
+  | .tens .scalar _ _ => .scalar
+  | .dnil => .dict
+  | .dcons k _ _ => if k = listKey then .list else .dict
+
+def b2n (b : Bool) : Nat := if b then 1 else 0
+
+/-- the branch of `_write_to_group` a value of that type takes (numbers: see harness/leaves/C16.py):
+    str ⊂ Iterable, ndarray ⊂ Iterable, list ⊂ Iterable, tuple ⊂ Iterable, dict ⊂ Iterable -/
+def writeBranch (t : PyType) : Nat :=
+  Rsa.Gen.C16.writeDispatch (b2n (t == .str)) (b2n (t == .ndarray)) (b2n (t == .list))
+    (b2n (t == .tuple)) (b2n (t == .dict)) (b2n (t == .none))
+    (b2n (t == .str || t == .ndarray || t == .list || t == .tuple || t == .dict))
+
+/-- numbers / strings of an array-like: raw dataset, or UTF-8 encoded bytes -/
+def writeArray (c : Codec) (sh : List Nat) (el : List Atom) : Except Err H5 :=
+  if el.all Atom.isNum then .ok (.dset sh el)
+  else if el.all Atom.isStr then do
+    let bs ← encStrs c (strsOf el)
+    pure (.dsetS sh bs)
+  else .error .unstorable
+
+/-- `_write_list` on a list `np.array` accepts -/
+def writeListC (c : Codec) (sh : List Nat) (el : List Atom) : Except Err H5 :=
+  match Rsa.Gen.C16.listDispatch 0 0 (b2n (!el.all Atom.isNum && el.all Atom.isStr)) with
+  | 1 => writeArray c sh el      -- `<U`: np.char.encode
+  | 2 => writeArray c sh el      -- raw
+  | _ => .error .typeError
+
+def encodeLeafC (c : Codec) (v : Val) : Except Err H5 :=
+  match writeBranch (pyTypeOf v), v with
+  | 1, .str s => .ok (.attrStr s)
+  | 2, .tens _ sh el => writeArray c sh el
+  | 3, .tens _ sh el => writeListC c sh el
+  | 5, .none => .ok .empty
+  | 6, .tens _ sh el =>       -- tuple, range, …: a str sequence becomes an attribute
+      if el.all Atom.isNum then writeListC c sh el
+      else if el.all Atom.isStr then .ok (.attrArr sh (strsOf el))
+      else .error .unstorable
+  | 7, .tens _ sh el => writeArray c sh el
+  | _, .dnil => .error .notDict
+  | _, .dcons _ _ _ => .error .notDict
+  | _, _ => .error .typeError
+
+/-- one value of the dictionary, as coded; `sub` = the recursive call on the value -/
+def itemC (c : Codec) (v : Val) (sub : Except Err H5) : Except Err H5 :=
+  match writeBranch (pyTypeOf v) with
+  | 4 => if v.isDict then sub else .error .typeError          -- dict: sub-group
+  | 3 =>
+      if v.isDict then
+        -- a list numpy refuses (TypeError for an object array, ValueError for a ragged
+        -- one): both must be caught for the per-element group to be written
+        (if Rsa.Gen.C16.listDispatch 1 0 0 == 3 && Rsa.Gen.C16.listDispatch 0 1 0 == 3
+         then sub else .error .unstorable)
+      else encodeLeafC c v
+  | _ => if v.isDict then .error .typeError else encodeLeafC c v
+
+/-- `_write_to_group` into a fresh group, as coded -/
+def encodeC (c : Codec) : Val → Except Err H5
+  | .dnil => .ok .gnil
+  | .dcons k v r => do
+      let item ← itemC c v (encodeC c v)
+      let rest ← encodeC c r
+      pure (.gcons k item rest)
+  | _ => .error .notDict
+
+/-! ### writing into a group that already has members (`File(handle, 'a')` on a used handle) -/
+
+def H5.isAttr : H5 → Bool
+  | .attrStr _ => true
+  | .attrArr _ _ => true
+  | _ => false
+
+/-- is there a link (dataset / sub-group) of that name? (attributes live in another name space) -/
+def H5.hasLink : H5 → String → Bool
+  | .gcons k item r, key => (k == key && !item.isAttr) || r.hasLink key
+  | _, _ => false
+
+def H5.hasName : H5 → String → Bool
+  | .gcons k _ r, key => k == key || r.hasName key
+  | _, _ => false
+
+/-- `group.attrs[key] = x`: replaces an attribute of that name, else adds it -/
+def H5.setAttr : H5 → String → H5 → H5
+  | .gcons k item r, key, x =>
+      if k = key ∧ item.isAttr = true then .gcons k x r else .gcons k item (r.setAttr key x)
+  | .gnil, key, x => .gcons key x .gnil
+  | other, _, _ => other
+
+def H5.addLink : H5 → String → H5 → H5
+  | .gcons k item r, key, x => .gcons k item (r.addLink key x)
+  | .gnil, key, x => .gcons key x .gnil
+  | other, _, _ => other
+
+/-- `_write_to_group(file, dictionary)` key by key: an attribute replaces one of the same name;
+    a dataset / group whose name is taken makes h5py raise — the keys written before stay -/
+def writeInto (item : Val → Except Err H5) : H5 → Val → H5 × Option Err
+  | g, .dnil => (g, Option.none)
+  | g, .dcons k v r =>
+      match item v with
+      | .error e => (g, some e)
+      | .ok it =>
+          if it.isAttr then writeInto item (g.setAttr k it) r
+          else if g.hasLink k then (g, some .nameExists)
+          else writeInto item (g.addLink k it) r
+  | g, _ => (g, some .notDict)
+
+def encodeItem (c : Codec) (v : Val) : Except Err H5 :=
+  if v.isDict then encode c v else encodeLeaf c v
+
+def encodeItemC (c : Codec) (v : Val) : Except Err H5 :=
+  match encodeC c (.dcons "" v .dnil) with
+  | .ok (.gcons _ it _) => .ok it
+  | .ok _ => .error .notDict
+  | .error e => .error e
+
 /-! ### objects ↔ dictionaries -/
 
 def req (d : Val) (k : String) : Except Err Val :=
@@ -290,13 +427,29 @@ def indexKey (i : Nat) : String := Nat.repr i
 /-- `'model_%d' % i` -/
 def modelKey (i : Nat) : String := "model_" ++ Nat.repr i
 
-/-- `dict_to_list` on one value: `list(v)`; an index-keyed group (the list fall-back of
-    `_write_list`, used for ragged / mixed lists) becomes the list of its entries in numeric
-    order — represented as the chain keyed `"0", "1", …` -/
+/-! A Python list that numpy cannot turn into an array (ragged, or holding `None`) is
+    represented as the dictionary of its entries keyed `"0", "1", …` that *starts with a marker
+    entry* `listKey ↦ length` — exactly the layout the (repaired) list fall-back of `_write_list`
+    gives its group (`l_group.attrs['rsatoolbox_list'] = len(value)`), which `_read_group` turns
+    back into a list.  A dictionary without the marker is a dictionary. -/
+
+def natVal (n : Nat) : Val := .tens .scalar [] [.num .int (.fin ((n : Int) : Rat))]
+
+def Val.isList : Val → Bool
+  | .dcons k _ _ => k == listKey
+  | _ => false
+
+/-- the list with the entries `items` (keyed `"0", "1", …`) -/
+def mkList (items : Val) : Val := .dcons listKey (natVal items.size) items
+
+/-- `dict_to_list` on one value: `list(v)`; a list stays a list; an index-keyed group *without*
+    the marker (written by an older version) becomes the list of its entries in numeric order -/
 def toListVal : Val → Except Err Val
   | .tens _ (n :: sh) el => .ok (.tens .list (n :: sh) el)
-  | .dnil => .ok .dnil
-  | .dcons k v r => byIndex indexKey (.dcons k v r)
+  | .dnil => .ok (.tens .list [0] [])
+  | .dcons k v r =>
+      if k = listKey then .ok (.dcons k v r)
+      else (byIndex indexKey (.dcons k v r)).map mkList
   | _ => .error .typeError
 
 def dictToList (d : Val) : Except Err Val := d.mapValsM toListVal
@@ -307,7 +460,7 @@ def lenOk (n : Nat) : Val → Bool
   | .tens _ [] _ => true          -- a scalar is not Iterable: accepted
   | .str _ => n == 1
   | .none => true
-  | d => d.size == n
+  | d => if d.isList then d.size == n + 1 else d.size == n   -- `len(list)` / `len(dict)`
 
 def checkLens (n : Nat) : Val → Bool
   | .dcons _ v r => lenOk n v && checkLens n r
@@ -324,10 +477,12 @@ def mkRdms (dis desc rd pd meas : Val) : Val :=
   mkDict [("dissimilarities", dis), ("descriptors", desc), ("rdm_descriptors", rd),
           ("pattern_descriptors", pd), ("dissimilarity_measure", meas)]
 
-/-- every value of a per-element descriptor dictionary is an array-like of length `n` -/
+/-- every value of a per-element descriptor dictionary is an array-like of length `n`, or a
+    list of `n` entries that is no array (ragged, or holding `None`) -/
 def elemOk (n : Nat) : Val → Bool
   | .dnil => true
   | .dcons _ (.tens _ (m :: _) _) r => m == n && elemOk n r
+  | .dcons _ (.dcons k _ items) r => k == listKey && items.size == n && elemOk n r
   | _ => false
 
 /-- what `RDMs.__init__` establishes: 2-d dissimilarities, descriptors of matching lengths,
@@ -557,21 +712,16 @@ inductive FType where
   | hdf5 | pkl
   deriving DecidableEq, Repr
 
-/-- what the extension of a path tells `load_*` when no file type is passed -/
-inductive Ext where
-  | h5 | pkl | other
-  deriving DecidableEq, Repr
-
 structure Target where
   isPath : Bool
   id : Nat
-  ext : Ext := .other
+  name : String := ""       -- the file name of a path target (only its ending matters)
   deriving DecidableEq, Repr
 
 inductive Content where
   | h5 (t : H5)
   | pkl (ds : List Val)    -- the pickles in the file, in order
-  | dirty                  -- partially written / merged: nothing is claimed about it
+  | dirty                  -- partially written: nothing is claimed about it
 
 abbrev FS := List (Nat × Bool × Content)   -- (id, isPath, content)
 
@@ -595,21 +745,36 @@ def dictAfter (ft : FType) (d : Val) : Val :=
   | .hdf5 => d
   | .pkl => d.set versionKey versionVal
 
-/-- `save`: `remove_file` if requested, then `write_dict_hdf5` / `write_dict_pkl`.
-    Returns the new file system and the error if any. -/
-def writeDict (c : Codec) (fs : FS) (t : Target) (ft : FType) (overwrite : Bool) (d : Val) :
-    FS × Option Err :=
-  let fs1 := if overwrite then FS.erase fs t else fs
+/-- `remove_file` if requested, then `write_dict_hdf5` / `write_dict_pkl`.  Parameters: `enc` the
+    writer into a fresh group, `item` the writer of one value (for a group that already has
+    members), `guard isStr exists` the existence test of `write_dict_hdf5`.
+    Returns the new file system and the error if any.
+
+    A save into an open handle that already holds something, without `overwrite`:
+    * HDF5 into an HDF5 file: `File(handle, 'a')` re-opens it and `_write_to_group` *merges*
+      (`writeInto`): attributes are replaced, the first dataset / group whose name is taken
+      raises and what was written before stays;
+    * pickle behind pickles: `pickle.dump` writes at the cursor, which is behind the first
+      pickle (after a save: the end; after a load from the start: the end of the first
+      pickle), so the first pickle — what every loader reads — stays;
+    * a file of the other type: no claim (`unspecified`). -/
+def writeDictWith (enc item : Val → Except Err H5) (guard : Bool → Bool → Bool)
+    (fs : FS) (t : Target) (ft : FType) (remove : Bool) (d : Val) : FS × Option Err :=
+  let fs1 := if remove then FS.erase fs t else fs
   match ft with
   | .hdf5 =>
       match FS.lookup fs1 t with
-      | some _ =>
-          if t.isPath then (fs1, some .fileExists)       -- guard: nothing is touched
-          -- a second save into an open, non-empty handle without `overwrite`: h5py appends to
-          -- or collides with what is there; the property is silent, the model makes no claim
-          else (FS.put fs1 t .dirty, some .unspecified)
+      | some old =>
+          if guard t.isPath true then (fs1, some .fileExists)       -- nothing is touched
+          else match old with
+            | .h5 g =>
+                match writeInto item g d with
+                | (g', Option.none) => (FS.put fs1 t (.h5 g'), Option.none)
+                | (g', some .nameExists) => (FS.put fs1 t (.h5 g'), some .nameExists)
+                | (_, some e) => (FS.put fs1 t .dirty, some e)
+            | _ => (FS.put fs1 t .dirty, some .unspecified)
       | Option.none =>
-          match encode c d with
+          match enc d with
           | .ok tree => (FS.put fs1 t (.h5 tree), Option.none)
           | .error e => (FS.put fs1 t .dirty, some e)
   | .pkl =>
@@ -617,22 +782,46 @@ def writeDict (c : Codec) (fs : FS) (t : Target) (ft : FType) (overwrite : Bool)
       if t.isPath then (FS.put fs1 t (.pkl [d']), Option.none)   -- open(…, 'wb') truncates
       else match FS.lookup fs1 t with
         | Option.none => (FS.put fs1 t (.pkl [d']), Option.none)
-        | some _ => (FS.put fs1 t .dirty, some .unspecified)     -- appended behind the old content
+        | some (.pkl (d0 :: rest)) => (FS.put fs1 t (.pkl (d0 :: (rest ++ [d']))), Option.none)
+        | some _ => (FS.put fs1 t .dirty, some .unspecified)
 
-def detectType (t : Target) (ft : Option FType) : Except Err FType :=
+/-- the specification: guard = "a path that exists" -/
+def writeDict (c : Codec) (fs : FS) (t : Target) (ft : FType) (overwrite : Bool) (d : Val) :
+    FS × Option Err :=
+  writeDictWith (encode c) (encodeItem c) (fun isStr ex => isStr && ex) fs t ft overwrite d
+
+/-- as coded: the generated dispatch and the generated guard of `write_dict_hdf5` -/
+def writeDictC (c : Codec) (fs : FS) (t : Target) (ft : FType) (remove : Bool) (d : Val) :
+    FS × Option Err :=
+  writeDictWith (encodeC c) (encodeItemC c)
+    (fun isStr ex => Rsa.Gen.C16.guard (b2n isStr) (b2n ex) == 1) fs t ft remove d
+
+/-- `load_*` without `file_type`: the suffix tests of the loader of that kind (generated);
+    models have no loader of their own, the harness uses the RDMs rule -/
+def detectCode (k : Kind) (name : String) : Nat :=
+  let a := b2n (name.endsWith ".pkl")
+  let b := b2n (name.endsWith ".h5")
+  let c := b2n (name.endsWith "hdf5")
+  match k with
+  | .rdms => Rsa.Gen.C16.detectRdm a b c
+  | .dataset => Rsa.Gen.C16.detectDataset a b c
+  | .result => Rsa.Gen.C16.detectResults a b c
+  | .model => Rsa.Gen.C16.detectRdm a b c
+
+def detectType (k : Kind) (t : Target) (ft : Option FType) : Except Err FType :=
   match ft with
   | some f => .ok f
   | Option.none =>
       if t.isPath then
-        match t.ext with
-        | .h5 => .ok .hdf5
-        | .pkl => .ok .pkl
-        | .other => .error .valueError
+        match detectCode k t.name with
+        | 1 => .ok .pkl
+        | 2 => .ok .hdf5
+        | _ => .error .valueError
       else .error .valueError
 
 /-- `read_dict_hdf5` / `read_dict_pkl` from the start of the file -/
-def readDict (fs : FS) (t : Target) (ft : Option FType) : Except Err Val := do
-  let f ← detectType t ft
+def readDict (k : Kind) (fs : FS) (t : Target) (ft : Option FType) : Except Err Val := do
+  let f ← detectType k t ft
   match FS.lookup fs t with
   | Option.none => .error .notFound
   | some (.h5 tree) => if f = .hdf5 then decode tree else .error .badFile
@@ -660,8 +849,47 @@ def save (c : Codec) (k : Kind) (fs : FS) (t : Target) (ft : FType) (overwrite :
       (fs', err, viewBack o d (dictAfter ft d))
 
 def load (k : Kind) (fs : FS) (t : Target) (ft : Option FType) : Except Err Val := do
-  let d ← readDict fs t ft
+  let d ← readDict k fs t ft
   fromDict k d
+
+/-- which steps `save` of that kind runs (generated from its current text): writer (2 hdf5,
+    4 pkl, 0 none) + 1 if `remove_file` ran first; models have no `save`, the harness runs
+    `remove_file` (if asked) and then the writer -/
+def planOf (k : Kind) (ft : FType) (ov : Bool) : Nat :=
+  let h := b2n (ft == .hdf5)
+  let p := b2n (ft == .pkl)
+  let o := b2n ov
+  match k with
+  | .rdms => Rsa.Gen.C16.savePlanRdms h p o
+  | .dataset => Rsa.Gen.C16.savePlanDataset h p o
+  | .result => Rsa.Gen.C16.savePlanResult h p o
+  | .model => (if ft == .hdf5 then 2 else 4) + o
+
+/-- `obj.save(target, file_type, overwrite)` as coded -/
+def saveC (c : Codec) (k : Kind) (fs : FS) (t : Target) (ft : FType) (overwrite : Bool) (o : Val) :
+    FS × Option Err × Val :=
+  match toDict k o with
+  | .error e => (fs, some e, o)
+  | .ok d =>
+      let p := planOf k ft overwrite
+      let remove := p % 2 == 1
+      match p / 2 with
+      | 1 =>
+          let (fs', err) := writeDictC c fs t .hdf5 remove d
+          (fs', err, viewBack o d (dictAfter .hdf5 d))
+      | 2 =>
+          let (fs', err) := writeDictC c fs t .pkl remove d
+          (fs', err, viewBack o d (dictAfter .pkl d))
+      | _ => ((if remove then FS.erase fs t else fs), Option.none, o)
+
+/-- the default `file_type` / `overwrite` of `save` (generated): writer code + overwrite -/
+def saveDefault (k : Kind) : FType × Bool :=
+  let code := match k with
+    | .rdms => Rsa.Gen.C16.saveDefaultRdms
+    | .dataset => Rsa.Gen.C16.saveDefaultDataset
+    | .result => Rsa.Gen.C16.saveDefaultResult
+    | .model => 2
+  (if code / 2 == 2 then .pkl else .hdf5, code % 2 == 1)
 
 /-! ### structural operations (the histories of C10 / C11 as far as storability goes) -/
 
@@ -670,8 +898,22 @@ def gather0 (sh : List Nat) (el : List Atom) (idx : List Nat) : List Atom :=
   let row := (sh.drop 1).foldl (· * ·) 1
   idx.flatMap (fun i => (el.drop (i * row)).take row)
 
+/-- the value of the `i`-th entry of a chain (`None` beyond its end) -/
+def Val.nth : Val → Nat → Val
+  | .dcons _ v _, 0 => v
+  | .dcons _ _ r, i + 1 => r.nth i
+  | _, _ => .none
+
+/-- the entries `items[idx[0]], items[idx[1]], …`, keyed `str(j), str(j + 1), …` -/
+def takeItems (items : Val) : Nat → List Nat → Val
+  | _, [] => .dnil
+  | j, i :: r => .dcons (indexKey j) (items.nth i) (takeItems items (j + 1) r)
+
 def takeVal (idx : List Nat) : Val → Val
   | .tens c (_ :: sh) el => .tens c (idx.length :: sh) (gather0 (0 :: sh) el idx)
+  | .dcons k x items =>
+      if k = listKey then mkList (takeItems items 0 idx)     -- `[v[i] for i in idx]`
+      else .dcons k x items
   | v => v
 
 /-- operations on an RDMs object that keep it an RDMs object: selection / repetition /
